@@ -4,6 +4,7 @@ import ZbossModel.Frag
 import ZbossModel.Rx
 import ZbossModel.Link
 import ZbossModel.Dispatch
+import ZbossModel.OpsCodec
 /-! Dispatch of line-protocol operations to the executable model. -/
 namespace Zboss.Ops
 open Zboss Zboss.Crc
@@ -199,6 +200,9 @@ def handle : List String → String
         | none =>
           match handleDispatch toks with
           | some r => r
-          | none => "bad-op"
+          | none =>
+            match OpsCodec.handle toks with
+            | some r => r
+            | none => "bad-op"
 
 end Zboss.Ops
